@@ -25,7 +25,7 @@ func c14URIText(s *EnumSpec, v []int) string {
 	if p := s.Val(v, "port"); p != "none" {
 		t += ":" + p
 	}
-	t += joinNonAbsent(s, v, ";", "p1", "p2", "p3")
+	t += joinNonAbsent(s, v, ";", "p1", "p2", "p3", "p4")
 	hs := ""
 	for _, n := range []string{"h1", "h2"} {
 		if x := s.Val(v, n); x != "absent" {
@@ -82,7 +82,7 @@ func c14ViaText(s *EnumSpec, v []int) string {
 	if p := s.Val(v, "port"); p != "none" {
 		e += ":" + p
 	}
-	e += joinNonAbsent(s, v, ";", "p1", "p2", "p3")
+	e += joinNonAbsent(s, v, ";", "p1", "p2", "p3", "p4")
 	sep := ","
 	if s.Val(v, "sep") == "comma-blank" {
 		sep = ", "
@@ -360,28 +360,28 @@ func init() {
 		{Name: "user", Vals: []string{"none", "u", "u:pw", "%41u", "u;x", "u?x"}},
 		{Name: "host", Vals: []string{"name", "ipv4", "ipv6", "dash-name"}},
 		{Name: "port", Vals: []string{"none", "5060", "5070"}},
-		{Name: "p1", Vals: par}, {Name: "p2", Vals: par}, {Name: "p3", Vals: par, Quick: 4},
+		{Name: "p1", Vals: par}, {Name: "p2", Vals: par}, {Name: "p3", Vals: par, Quick: 4}, {Name: "p4", Vals: par[:5], Quick: 1},
 		{Name: "h1", Vals: []string{"absent", "a=b", "c=%20d", "e="}}, {Name: "h2", Vals: []string{"absent", "a=b", "c=%20d", "e="}, Quick: 2},
-	}, Eval: c14EvalURI, Sample: 20000, Seqs: [][]string{{"p1", "p2", "p3"}, {"h1", "h2"}}}
+	}, Eval: c14EvalURI, Sample: 20000, Seqs: [][]string{{"p1", "p2", "p3", "p4"}, {"h1", "h2"}}}
 	c14Specs["uri"].Valid = func(v []int) bool {
 		s := c14Specs["uri"]
-		return trailingAbsent(s, v, "p1", "p2", "p3") && trailingAbsent(s, v, "h1", "h2")
+		return trailingAbsent(s, v, "p1", "p2", "p3", "p4") && trailingAbsent(s, v, "h1", "h2")
 	}
 	vpar := []string{"absent", "branch=z9hG4bKx", "rport", "rport=5", "received=1.2.3.4", "ttl=1", "p=%41", "rport=x"}
 	c14Specs["via"] = &EnumSpec{Feats: []Feat{
 		{Name: "proto", Vals: []string{"SIP/2.0/UDP", "SIP/2.0/TCP", "SIP/2.0/TLS", "SIP/2.0/udp", "X/9/SCTP"}},
 		{Name: "host", Vals: []string{"ipv4", "name", "ipv6"}},
 		{Name: "port", Vals: []string{"none", "5060", "5070"}},
-		{Name: "p1", Vals: vpar}, {Name: "p2", Vals: vpar}, {Name: "p3", Vals: vpar, Quick: 4},
+		{Name: "p1", Vals: vpar}, {Name: "p2", Vals: vpar}, {Name: "p3", Vals: vpar, Quick: 4}, {Name: "p4", Vals: vpar[:5], Quick: 1},
 		{Name: "more", Vals: []string{"none", "plain", "params", "four"}},
 		{Name: "sep", Vals: []string{"comma", "comma-blank"}},
-	}, Eval: c14EvalVia, Sample: 20000, Seqs: [][]string{{"p1", "p2", "p3"}}}
+	}, Eval: c14EvalVia, Sample: 20000, Seqs: [][]string{{"p1", "p2", "p3", "p4"}}}
 	c14Specs["via"].Valid = func(v []int) bool {
 		s := c14Specs["via"]
 		if v[s.idx("more")] == 0 && v[s.idx("sep")] != 0 {
 			return false
 		}
-		return trailingAbsent(s, v, "p1", "p2", "p3")
+		return trailingAbsent(s, v, "p1", "p2", "p3", "p4")
 	}
 	hp := []string{"absent", "tag=t1", "tag=%41", "x", "y=z", "tag=a-b"}
 	for _, kind := range []string{"from", "to"} {
@@ -441,7 +441,7 @@ func init() {
 		}
 	}
 	addCheck(&Check{ID: "C14", Level: "exploration",
-		Rule:   "every derivation of a bounded grammar per decoded type (SIP/SIPS URI: user x host x port x all parameter sequences of length 0-3 x header sequences 0-2; Via: sent-protocol x host x port x parameter sequences 0-3 x 1-5 entries; From/To: form x display name x URI x header-parameter sequences 0-3; Route/Record-Route lists of 1-3 entries; Request-URI forms; CSeq), called directly on Parse*/String; laws: decode->encode equals the generator's abstract value component-wise (independent reader), encode-decode-encode idempotent, accessors equal the components the text denotes; non-trivial = decodable value",
+		Rule:   "every derivation of a bounded grammar per decoded type (SIP/SIPS URI: user x host x port x all parameter sequences of length 0-3 (thorough 0-4) x header sequences 0-2; Via: sent-protocol x host x port x parameter sequences 0-3 (thorough 0-4) x 1-5 entries; From/To: form x display name x URI x header-parameter sequences 0-3; Route/Record-Route lists of 1-3 entries; Request-URI forms; CSeq), called directly on Parse*/String; laws: decode->encode equals the generator's abstract value component-wise (independent reader), encode-decode-encode idempotent, accessors equal the components the text denotes; non-trivial = decodable value",
 		Assume: []string{"IPv6 references and user parts containing ';' or '?' are generated as the property says and tracked in KNOWN_FINDINGS.txt"},
 		Run: func(c *Ctx) {
 			for _, k := range order {
